@@ -62,13 +62,13 @@ func kopTerm(op *KOp, cas uint64) Term {
 	case "GetSubDocRaw":
 		return C("KGetSubDocRaw", S(op.Path))
 	case "Add":
-		return C("KAdd", N(uint64(op.Exp)), S(*op.Val))
+		return C("KAdd", N(uint64(op.Exp)), valTerm(op.Val, false))
 	case "AddRaw":
-		return C("KAddRaw", N(uint64(op.Exp)), S(*op.Val))
+		return C("KAddRaw", N(uint64(op.Exp)), valTerm(op.Val, true))
 	case "Set":
-		return C("KSet", N(uint64(op.Exp)), B(op.Preserve), S(*op.Val))
+		return C("KSet", N(uint64(op.Exp)), B(op.Preserve), valTerm(op.Val, false))
 	case "SetRaw":
-		return C("KSetRaw", N(uint64(op.Exp)), B(op.Preserve), S(*op.Val))
+		return C("KSetRaw", N(uint64(op.Exp)), B(op.Preserve), valTerm(op.Val, true))
 	case "WriteCas":
 		return C("KWriteCas", N(uint64(op.Exp)), N(cas), optStr(op.Val), B(op.Raw), B(op.Append), B(op.AddOnly))
 	case "Remove":
